@@ -1335,6 +1335,7 @@ def build_seqpam_mapping_optimization_workflow(
                 ApplyPlacement(),
                 UnfoldPass(),
             ],
+            ApplyPlacement(),
         ),
         name='SeqPAM Mapping',
     )
